@@ -59,7 +59,7 @@ def generate(prop, rng):
         cfg["nested_role"] = rng.choice(["cache", "remote"])
     push_fault = None
     if rng.random() < 0.6:
-        push_fault = {"kind": rng.choice(["upload_error", "upload_error", "ack_lost", "remote_down"]),
+        push_fault = {"kind": rng.choice(["upload_error", "upload_error", "ack_lost", "remote_down", "dir_unreadable"]),
                       "nth": rng.randint(1, 5), "count": rng.randint(1, 2)}
     fetch_fault = None
     if rng.random() < 0.35:
@@ -276,6 +276,9 @@ def execute(sc, ctx):
         if k == "remote_down":
             at = ("r_put", "r_query", "r_get") if rkind == "remote" else ("copy_create", "os_open_w")
             return [{"at": at, "match": None, "exc": "ConnectionError", "name": "remote_down", "count": 10**6}]
+        if k == "dir_unreadable":
+            # a directory object cannot be read from the cache while the index is being collected
+            return [{"at": ("open_r",), "match": ".dir", "nth": 1, "exc": "EIO", "name": k, "count": 1}]
         if k == "upload_error":
             at = ("r_put",) if rkind == "remote" else ("copy_create", "os_open_w")
             return [{"at": at, "match": None, "nth": f["nth"], "exc": "EIO", "name": k, "count": f["count"]}]
@@ -407,6 +410,6 @@ def execute(sc, ctx):
                     want[base + ("/" + rel if rel else "")] = data
             if errs or snap != want:
                 ctx.violate("checkout-differs", pdisc, f"errs={len(errs)} missing={sorted(set(want) - set(snap))} extra={sorted(set(snap) - set(want))}")
-    fired_any = any(k in seam.fired for k in ("upload_error", "ack_lost", "remote_down", "get_error"))
+    fired_any = any(k in seam.fired for k in ("upload_error", "ack_lost", "remote_down", "get_error", "dir_unreadable"))
     ctx.nontrivial = (len(smap) >= 2 or fired_any) and dir_moved
     ctx.probe("placement_" + cfg["placement"])
